@@ -185,6 +185,19 @@ class Stmt:
         return "%r = %r" % (self.lhs, self.rv)
 
 
+class Args(list):
+    """argument list of a call: an index past the end yields an empty operand instead of raising, so a rule that looks at
+    `args[0]` of every call named `insert` does not fall over an associated function of the same name that takes none"""
+
+    def __getitem__(self, i):
+        if isinstance(i, slice):
+            return list.__getitem__(self, i)
+        try:
+            return list.__getitem__(self, i)
+        except IndexError:
+            return Operand({"absent": True})
+
+
 class Term:
     __slots__ = ("k", "j", "bb", "args", "dest", "callee", "span", "mac")
 
@@ -198,7 +211,7 @@ class Term:
         self.dest = None
         self.callee = None
         if self.k == "call":
-            self.args = [Operand(a) for a in j["args"]]
+            self.args = Args(Operand(a) for a in j["args"])
             self.dest = Place(j["dest"])
             self.callee = j["callee"]
         elif self.k == "yield":
@@ -308,6 +321,11 @@ class Fn:
             for s in b.stmts:
                 yield s
 
+    @property
+    def inl_rets(self):
+        """return places of helper bodies that were inlined into this function"""
+        return set(self.j.get("inl_rets", ()))
+
     def local_name(self, l):
         return self.names.get(str(l))
 
@@ -316,6 +334,57 @@ class Fn:
 
     def __repr__(self):
         return "<Fn %s>" % self.id
+
+
+def _shift(o, loff, boff):
+    """deep copy of a MIR JSON fragment with locals shifted by loff and block indices by boff"""
+    if isinstance(o, dict):
+        if set(o.keys()) == {"l", "p"}:
+            return {"l": o["l"] + loff, "p": [[pr[0], pr[1] + loff] + list(pr[2:]) if pr and pr[0] == "index" and isinstance(pr[1], int) else list(pr) for pr in o["p"]]}
+        out = {}
+        for k, v in o.items():
+            if k in ("target", "unwind", "otherwise") and isinstance(v, int):
+                out[k] = v + boff
+            elif k == "targets" and isinstance(v, list):
+                out[k] = [[x[0], x[1] + boff] for x in v]
+            else:
+                out[k] = _shift(v, loff, boff)
+        return out
+    if isinstance(o, list):
+        return [_shift(x, loff, boff) for x in o]
+    return o
+
+
+def _inline_call(F, bi, G):
+    """replace the call terminating block `bi` of function JSON F by the body of function JSON G (in place)"""
+    loff, boff = len(F["locals"]), len(F["blocks"])
+    call = F["blocks"][bi]["term"]
+    F["locals"] = F["locals"] + G["locals"]
+    names = dict(F.get("names", {}))
+    for k, v in G.get("names", {}).items():
+        if k.isdigit():
+            names[str(int(k) + loff)] = v
+    F["names"] = names
+    sp = call.get("span", "")
+    for i, a in enumerate(call["args"]):
+        F["blocks"][bi]["stmts"].append({"lhs": {"l": loff + 1 + i, "p": []}, "rv": {"k": "use", "op": a}, "span": sp, "inl": "arg"})
+    F["blocks"][bi]["term"] = {"k": "goto", "target": boff, "span": sp, "inlined": G["id"]}
+    F.setdefault("inl_rets", []).append(loff)
+    cleanup_of_call = F["blocks"][bi]["cleanup"]
+    for b in G["blocks"]:
+        nb = _shift(b, loff, boff)
+        if cleanup_of_call:
+            nb["cleanup"] = True
+        t = nb["term"]
+        if t and t.get("k") == "return":
+            nb["stmts"].append({"lhs": call["dest"], "rv": {"k": "use", "op": {"move": {"l": loff, "p": []}}}, "span": sp, "inl": "ret"})
+            if call.get("target") is not None:
+                nb["term"] = {"k": "goto", "target": call["target"], "span": t.get("span", sp)}
+            else:
+                nb["term"] = {"k": "unreachable", "span": t.get("span", sp)}
+        elif t and t.get("k") == "resume" and call.get("unwind") is not None:
+            nb["term"] = {"k": "goto", "target": call["unwind"], "span": t.get("span", sp)}
+        F["blocks"].append(nb)
 
 
 class DB:
@@ -347,6 +416,69 @@ class DB:
                 self.fns[fn.id] = fn
         self._callers = None
         self._closures = None
+        self.inlined = {}          # caller id -> [helper ids inlined into it]
+        self.helpers = set()       # ids of functions unknown to the reviewed baseline that were inlined
+        if os.environ.get("WACVERIF_NO_INLINE") != "1":
+            self._inline_new_helpers()
+
+    # ---- helper inlining
+    def _inline_new_helpers(self):
+        """Functions that are not in the reviewed baseline (specs/known_fns.json) are *new helpers* — what an
+        extract-function refactoring (or a change under test) introduces.  Every direct call to one is replaced by
+        the helper's body (locals and blocks renumbered, arguments assigned, returns turned into an assignment of the
+        call's destination and a jump to its continuation), so the rules see the caller as it was reviewed.  Private
+        helpers whose every use was a direct call are then dropped from the database; their closures are attributed
+        to the callers."""
+        base_p = os.path.join(os.path.dirname(os.path.abspath(__file__)), "..", "specs", "known_fns.json")
+        if not os.path.exists(base_p):
+            return
+        base = set(json.load(open(base_p))["fns"])
+        new = {f.id for f in self.fns.values() if f.kind in ("Fn", "AssocFn") and not f.from_expansion and f.id not in base
+               and " as " not in f.id and "{closure" not in f.id and f.crate in LIB_CRATES and not any(l.startswith("{coroutine") or "{async" in l for l in f.locals[:1])}
+        if not new:
+            return
+        # a helper handed around as a value (fn item operand) cannot be inlined away
+        used_as_value = set()
+        for f in self.fns.values():
+            for b in f.j["blocks"]:
+                t = b["term"]
+                if t and t.get("k") == "call":
+                    for fa in (t["callee"] or {}).get("fnargs", []) or []:
+                        used_as_value.add(strip_generics(fa))
+        for _round in range(4):
+            changed = False
+            for f in list(self.fns.values()):
+                if "{coroutine" in (f.locals[0] if f.locals else ""):
+                    continue
+                todo = []
+                for bi, b in enumerate(f.j["blocks"]):
+                    t = b["term"]
+                    if t and t.get("k") == "call" and t.get("callee"):
+                        cp = strip_generics(t["callee"].get("resolved") or t["callee"]["path"])
+                        if cp in new and cp != f.id and cp in self.fns and self.inlined.get(f.id, []).count(cp) + sum(1 for _, c in todo if c == cp) < 8:
+                            todo.append((bi, cp))
+                if not todo:
+                    continue
+                j = json.loads(json.dumps(f.j))
+                for bi, cp in todo:
+                    _inline_call(j, bi, self.fns[cp].j)
+                    self.inlined.setdefault(f.id, []).append(cp)
+                f.j = j
+                f.locals = j["locals"]
+                f.names = j.get("names", {})
+                f._blocks = None
+                changed = True
+            if not changed:
+                break
+        self.helpers = {h for hs in self.inlined.values() for h in hs}
+        for h in sorted(self.helpers):
+            g = self.fns.get(h)
+            if g is not None and not g.is_pub and h not in used_as_value:
+                # still called directly somewhere (inlining bound reached)?  then keep it
+                still = any(t.get("k") == "call" and t.get("callee") and strip_generics(t["callee"].get("resolved") or t["callee"]["path"]) == h
+                            for f in self.fns.values() if f.id != h for b in f.j["blocks"] for t in [b["term"]] if t)
+                if not still:
+                    del self.fns[h]
 
     # ---- lookups
     def fn(self, id_):
@@ -413,6 +545,12 @@ class DB:
                     # direct lexical parent = id without the last ::{closure#n}
                     par = f.id.rsplit("::{closure", 1)[0]
                     self._closures[par].append(f)
+            # closures of a helper that was inlined belong to the callers as well
+            for caller, hs in self.inlined.items():
+                for h in dict.fromkeys(hs):
+                    for c in self._closures.get(h, []):
+                        if c not in self._closures[caller]:
+                            self._closures[caller].append(c)
         return self._closures.get(fn_id, [])
 
     def with_closures(self, fn):
